@@ -240,6 +240,58 @@ Theorem C05_visible_characterised : forall es e,
 Proof. exact visible_spec. Qed.
 Print Assumptions C05_visible_characterised.
 
+(* ---------- ReadAll over what the decoder returns ---------- *)
+(* ReadAll (write mode) is the fold of its loop body over decode_all's records; a decoder error other than a
+   clean end is returned as is *)
+Theorem C05_readall_is_fold : forall start segs,
+  rares_view (read_all start segs) =
+  match fold_view start ra_init (decode_all segs) with
+  | inr e => inr e
+  | inl (s, Some e, _) => inr e
+  | inl (s, None, off) => inl (ra_meta s, ra_st s, ra_ents s, off)
+  end.
+Proof. exact read_all_fold. Qed.
+Print Assumptions C05_readall_is_fold.
+
+(* and that fold, over the stored form of logical records, computes [effect] *)
+Theorem C05_fold_is_effect : forall start ls crc s,
+  Forall lrec_wf ls ->
+  match ra_fold start s (stored crc (map rec_of_lrec ls)) with
+  | inl s' => effect_go start ls (ra_st s) (ra_ents s) = Some (ra_st s', ra_ents s') /\ ra_meta s' = ra_meta s
+  | inr e => effect_go start ls (ra_st s) (ra_ents s) = None /\ (e = EOutOfRange \/ e = ESnapMismatch)
+  end.
+Proof. exact ra_fold_effect. Qed.
+Print Assumptions C05_fold_is_effect.
+
+(* ---------- END TO END, first segment ----------
+   C05_full restricted to: histories that stay in their first segment (either fsync mode, any well-formed
+   operations, the crash inside the last operation o) and images 'first c bytes, then zeros' for EVERY c
+   behind the last fdatasync completed before o. What a restarting node runs — Open + ReadAll, and when
+   that fails Repair and a second Open + ReadAll — fails, or returns exactly effect(prefix of the saved
+   records) with every record saved before that fdatasync inside the prefix.
+   Hypotheses beyond well-formedness: the named no_crc_collision_cut for a cut inside a frame body, and the
+   preallocated remainder of the segment is 0 or at least 8 bytes (true whenever SegmentSizeBytes is a
+   multiple of 8, as the default is). Missing for the full statement: later segments, zeroed-sector and
+   short-file images, bit flips (refuted in general, see below). *)
+Theorem C05_first_segment_cut_partial : forall opt seg meta ops o c,
+  data_ok meta -> Forall op_wf (ops ++ [o]) ->
+  let w0 := w_run opt seg meta ops in
+  let w := w_step w0 o in
+  w_seq w = 0 ->
+  (seg - blen (w_tail w) = 0 \/ 8 <= seg - blen (w_tail w)) ->
+  synced_off w0 w <= c -> c <= blen (sg_bytes (tail_file w)) ->
+  (forall recs1 x recs2 j, recs_of meta (ops ++ [o]) = recs1 ++ x :: recs2 ->
+     c = blen (fst (encode_all 0 recs1)) + j -> 8 <= j < blen (frame_of (snd (encode_all 0 recs1)) x) ->
+     no_crc_collision_cut (snd (encode_all 0 recs1)) x j) ->
+  match final_result (reopen (set_last_bytes (w_files w) (img_trunc c)) (Some zero_snap)) with
+  | RAErr _ => True
+  | RAOk _ st ents _ _ =>
+      exists k, synced_recs w0 <= k /\
+                effect zero_snap (firstn (N.to_nat k) (lrecs (ops ++ [o]))) = Some (st, ents)
+  end.
+Proof. exact first_segment_cut. Qed.
+Print Assumptions C05_first_segment_cut_partial.
+
 (* ---------- the full statement and why only parts of it are theorems ----------
    Spec.C05_full: for every history, every crash image (cut + zero fill or short file at any offset behind
    the last completed fdatasync, zeroed sectors behind it, any single bit flip) reopening fails or returns
@@ -298,6 +350,27 @@ Proof.
   - constructor; [|constructor]. cbn [op_wf]. split; [unfold hs_wf; cbn; repeat split; reflexivity|].
     constructor; [|constructor]. split; [constructor; cbn; try reflexivity|split; [repeat constructor; lia|cbn; lia]].
   - split; [vm_compute; reflexivity|]. eexists. vm_compute. repeat split.
+Qed.
+
+(* the hypotheses of the end-to-end theorem are satisfiable: the history above, crash in its Save, the image
+   keeps everything (c = segment size); reopening returns the whole effect *)
+Example C05_ex_end_to_end :
+  let e1 := {| e_type := 0; e_term := 1; e_index := 1; e_data := Some [104; 105]; e_id := 7; e_dtype := 0; e_ts := 0 |} in
+  let o := OSave {| hs_term := 1; hs_vote := 1; hs_commit := 0 |} [e1] in
+  let w0 := w_run false 512 (Some [1;2;3]) [] in
+  let w := w_step w0 o in
+  w_seq w = 0 /\ 8 <= 512 - blen (w_tail w) /\ synced_off w0 w <= 512 /\ 512 <= blen (sg_bytes (tail_file w)) /\
+  (forall recs1 x recs2 j, recs_of (Some [1;2;3]) ([] ++ [o]) = recs1 ++ x :: recs2 ->
+     512 = blen (fst (encode_all 0 recs1)) + j -> 8 <= j < blen (frame_of (snd (encode_all 0 recs1)) x) -> False) /\
+  match final_result (reopen (set_last_bytes (w_files w) (img_trunc 512)) (Some zero_snap)) with
+  | RAOk _ st ents _ _ => st = {| hs_term := 1; hs_vote := 1; hs_commit := 0 |} /\ ents = [e1]
+  | RAErr _ => False
+  end.
+Proof.
+  cbv zeta. split; [vm_compute; reflexivity|]. split; [vm_compute; discriminate|].
+  split; [vm_compute; discriminate|]. split; [vm_compute; discriminate|]. split.
+  - apply no_cut_beyond_stream. vm_compute. discriminate.
+  - vm_compute. auto.
 Qed.
 
 (* a concrete history satisfies the hypotheses of the prefix theorem's stream and decodes back *)
